@@ -656,11 +656,15 @@ class CausalInference(object):
             }
             evidence = {**do, **adj_evidence}
             # Index by state number: keyword arguments would require string variable names.
-            p_z_state = p_z.values[
-                tuple(
-                    p_z.get_state_no(var, adj_evidence[var]) for var in p_z.variables
-                )
-            ]
+            # float(): a 0-d torch tensor would be taken for a factor by the product below.
+            p_z_state = float(
+                p_z.values[
+                    tuple(
+                        p_z.get_state_no(var, adj_evidence[var])
+                        for var in p_z.variables
+                    )
+                ]
+            )
             values.append(
                 infer.query(variables, evidence=evidence, show_progress=False)
                 * p_z_state
